@@ -12,7 +12,10 @@ use std::sync::atomic::{AtomicBool, Ordering};
 use std::sync::Mutex;
 use std::time::Instant;
 
-pub const VERIF_DIR: &str = "/verif";
+/// Root of the verification tree: /verif, or $VERIF_HOME when ./check runs from a snapshot copy.
+pub fn verif_dir() -> String {
+    std::env::var("VERIF_HOME").ok().filter(|s| !s.is_empty()).unwrap_or_else(|| "/verif".to_string())
+}
 
 #[derive(Clone, Copy, Debug, PartialEq, Eq)]
 pub enum Tier {
@@ -163,7 +166,7 @@ pub struct KnownFindings {
 
 impl KnownFindings {
     pub fn load() -> KnownFindings {
-        let path = format!("{VERIF_DIR}/known_findings.json");
+        let path = format!("{}/known_findings.json", verif_dir());
         let mut open = BTreeMap::new();
         if let Ok(s) = std::fs::read_to_string(&path) {
             if let Ok(v) = serde_json::from_str::<Value>(&s) {
@@ -423,17 +426,17 @@ impl Ctx {
     /// The semantic oracle lives inside the target; a crash artifact becomes the replay file.
     pub fn run_fuzz(&self, name: &str, target: &str, runs_each: u64, max_len: u32, rule: &str) -> bool {
         let t0 = Instant::now();
-        let bin = format!("{VERIF_DIR}/target/fuzz/x86_64-unknown-linux-gnu/release/{target}");
+        let bin = format!("{}/target/fuzz/x86_64-unknown-linux-gnu/release/{target}", verif_dir());
         if !std::path::Path::new(&bin).exists() {
             eprintln!("INCONCLUSIVE: fuzz target {bin} not built");
             std::process::exit(2);
         }
         let procs = self.threads.clamp(1, 8);
-        let art = format!("{VERIF_DIR}/replays/");
+        let art = format!("{}/replays/", verif_dir());
         let _ = std::fs::create_dir_all(&art);
         let mut children = vec![];
         for i in 0..procs {
-            let corpus = format!("{VERIF_DIR}/target/fuzzcorpus/{}-{}-{}-{}", self.property, target, self.seed_env(), i);
+            let corpus = format!("{}/target/fuzzcorpus/{}-{}-{}-{}", verif_dir(), self.property, target, self.seed_env(), i);
             let _ = std::fs::remove_dir_all(&corpus);
             let _ = std::fs::create_dir_all(&corpus);
             let seed = (seed_for(self.seed, name, i as u64) % 0xffff_fffe) + 1;
@@ -446,8 +449,8 @@ impl Ctx {
                 .arg("-print_final_stats=1")
                 .arg(format!("-artifact_prefix={art}fuzz-{target}-"))
                 .arg(&corpus)
-                .arg(format!("{VERIF_DIR}/fuzz/seeds/{target}"))
-                .current_dir(format!("{VERIF_DIR}/target"))
+                .arg(format!("{}/fuzz/seeds/{target}", verif_dir()))
+                .current_dir(format!("{}/target", verif_dir()))
                 .stdin(std::process::Stdio::null())
                 .stdout(std::process::Stdio::null())
                 .stderr(std::process::Stdio::piped())
@@ -572,7 +575,7 @@ impl Ctx {
 
     pub fn report_violation(&self, check: &str, case: &Value, reason: &str) {
         self.violated.store(true, Ordering::SeqCst);
-        let dir = format!("{VERIF_DIR}/replays");
+        let dir = format!("{}/replays", verif_dir());
         let _ = std::fs::create_dir_all(&dir);
         let path = format!("{dir}/{}-{}-{}.json", self.property, check, self.seed_env());
         let body = json!({
@@ -666,7 +669,7 @@ impl Ctx {
             "wall_s": (self.start.elapsed().as_secs_f64() * 1000.0).round() / 1000.0,
             "violations": if violated { 1 } else { 0 },
         });
-        let dir = format!("{VERIF_DIR}/evidence");
+        let dir = format!("{}/evidence", verif_dir());
         let _ = std::fs::create_dir_all(&dir);
         let path = format!("{dir}/{}.json", self.property);
         if let Err(e) = std::fs::write(&path, serde_json::to_string_pretty(&ev).unwrap_or_default()) {
